@@ -348,8 +348,14 @@ func genC03(r *prng.R) Case {
 			c.Ops = append(c.Ops, Op{K: "tcommit"})
 			commits++
 		case x < 80:
-			if depth == 0 && c.isDB() && commits > 0 {
-				c.Ops = append(c.Ops, Op{K: "reopen"})
+			if depth == 0 && c.isDB() {
+				if commits == 0 {
+					// nothing to reopen at yet: commit instead, later draws become legal
+					c.Ops = append(c.Ops, Op{K: "tcommit"})
+					commits++
+				} else {
+					c.Ops = append(c.Ops, Op{K: "reopen"})
+				}
 			}
 		case x < 88:
 			if depth < maxOverlayDepth {
@@ -455,7 +461,9 @@ func mainC03(seed uint64, n int, out string, rp *replayInput) {
 		}
 		return
 	}
-	r := prng.New(seed)
+	// prng.New(seed) and prng.New(seed+1) are the same splitmix64 stream shifted
+	// by one step; forking once decorrelates consecutive seeds.
+	r := prng.New(seed).Fork()
 	for i := 0; i < n; i++ {
 		process(genC03(r.Fork()))
 	}
